@@ -236,6 +236,9 @@ def gen(rng, i, tier):
     t = G.quad_terms(rng, uni, spin=spin) if fn in ("qubo", "quso") else G.raw_terms(rng, uni)
     if fn in ("qubo", "quso") and form == "dict":
         t = [(k, v) for k, v in t if len(k) <= 2]   # documented domain of the quadratic value functions
+    if rng.random() < 0.06:
+        # the smallest models: one variable, labelled 0 (a label that is false in a boolean context), with or without offset
+        t = [((0,), G.coef(rng))] + ([((), G.coef(rng))] if rng.random() < 0.5 else [])
     labs = sorted({C.enc(x) for k, _ in t for x in k})
     cont = "dict"
     if uni == 'int' and labs and rng.random() < 0.4:
